@@ -166,9 +166,8 @@ Section R.
         unfold edges_ok in EO. rewrite forallb_forall in EO. apply (EO _ Hw). }
       destruct (memN kEND (targets ws)) eqn:ME.
       + apply memN_In in ME. destruct (TK _ ME) as [[t [Ht Ha]] _]. simpl in Ht, Ha.
-        destruct (value_for kEND ws) as [|c] eqn:V; [split; discriminate|].
         unfold in_ty in Ht. simpl in Ht. inversion Ht; subst t.
-        simpl in Ha. rewrite Ha. split; discriminate.
+        cbv zeta. rewrite Ha. split; discriminate.
       + intros x Hx. apply in_map_iff in Hx. destruct Hx as [t [E Ht]]. subst x. simpl.
         destruct (TK t Ht) as [A [B|B]]; [auto|].
         exfalso. subst t. apply memN_In in Ht. congruence.
